@@ -12,7 +12,7 @@ PROPERTY = 'C20'
 
 RULE = ('Formulas of the fragment the explainer supports (no since/until; arithmetic, comparisons, Boolean, rise/fall, prev/next, bounded and '
         'unbounded once/historically/eventually/always), 1-3 variables with the same variable occurring in several places forced in half of '
-        'the cases, traces of length 1-8 on which the reference robustness at time 0 is < 0 (the formula is negated if it is satisfied). '
+        'the cases, formulas up to depth 5 with styles plain / simple predicates (var cmp const, depth spent on temporal nesting) / two-branches (the same variable under two temporal operators with different windows); traces of length 1-8 on which the reference robustness at time 0 is < 0 (the formula is negated if it is satisfied). '
         'evaluate(); explain(); E = union of the index intervals reported under each input variable. Each case carries 10 generated '
         're-assignments of ALL samples (extreme +-1000 and small dyadic values); positions in E are put back to the original values and the '
         'reference must still give rho(phi, w\', 0) < 0. Lane satisfied: rho(phi,w,0) > 0 => nothing is reported. Non-trivial = E does not '
